@@ -154,8 +154,9 @@ theorem step_updName_eq (s : St) (name new : String) (st : Started) :
         else if !t.refBy.isEmpty then (s, .err)
         else (unApply s name new t, .ok) := rfl
 
-def ucDetach (s : St) (name : String) (t : Tag) (convs : List String) : St :=
-  (t.convs.filter (fun c => !convs.contains c)).foldl (fun s c => detachConv s name c) s
+-- CHANGED (dropped): the detach may run `outputDropped`, which takes the tagging choice
+def ucDetach (s : St) (name : String) (t : Tag) (convs : List String) (choice : Option String) : St :=
+  (t.convs.filter (fun c => !convs.contains c)).foldl (fun s c => detachConv s name c choice) s
 def ucAttach (s : St) (name : String) (convs : List String) : St :=
   (convs.filter (fun c => !(((sget s.tags name).map (·.convs)).getD []).contains c)).foldl
     (fun s c => (attachConv s name c).1) s
@@ -167,7 +168,7 @@ theorem step_updConv_eq (s : St) (name : String) (convs : List String) (st : Sta
       | some t =>
         if convs.any (fun c => !t.convs.contains c && (!s.convs.contains c ||
             !(!(t.mfeat &&& fData ≠ 0 || t.sfeat &&& fData ≠ 0 || !t.mainT.isEmpty || !t.subT.isEmpty)))) then (s, .err) else
-        (startConverter (ucAttach (ucDetach s name t convs) name convs), .ok) := rfl
+        (startConverter (ucAttach (ucDetach s name t convs st.tag) name convs), .ok) := rfl
 
 def markTail (p : St × Res) (st : Started) : St × Res := (startConverter (startTagging p.1 st.tag), p.2)
 
@@ -191,16 +192,17 @@ theorem step_markDel_eq (s : St) (name : String) (ids : List Nat) (st : Started)
         else if ids.foldl max 0 ≥ s.next then (s, .err)
         else markTail (markUpdate s name [] ids) st := rfl
 
-def dtApply (s : St) (name : String) (t : Tag) : St :=
+-- CHANGED (dropped): the detach may run `outputDropped`, which takes the tagging choice
+def dtApply (s : St) (name : String) (t : Tag) (choice : Option String) : St :=
   t.refs.foldl (fun s r => delRefBy s r name)
-    { (t.convs.foldl (fun s c => detachConv s name c) s) with
-      tags := sdel (t.convs.foldl (fun s c => detachConv s name c) s).tags name }
+    { (t.convs.foldl (fun s c => detachConv s name c choice) s) with
+      tags := sdel (t.convs.foldl (fun s c => detachConv s name c choice) s).tags name }
 
 theorem step_delTag_eq (s : St) (name : String) (st : Started) :
     step s (.delTag name) st =
       match sget s.tags name with
       | none => (s, .err)
-      | some t => if !t.refBy.isEmpty then (s, .err) else (dtApply s name t, .ok) := rfl
+      | some t => if !t.refBy.isEmpty then (s, .err) else (dtApply s name t st.tag, .ok) := rfl
 
 
 /-! ## frames, event by event -/
@@ -331,7 +333,7 @@ theorem step_updConv_fr (s : St) (name : String) (convs : List String) (st : Sta
   unfold ucAttach ucDetach
   refine Fr.trans ?_ (Fr.of_same (startConverter_same _))
   refine Fr.trans ?_ (foldl_fr _ (fun s c => attachConv_fr s name c) _ _)
-  exact foldl_fr _ (fun s c => detachConv_fr s name c) _ _
+  exact foldl_fr _ (fun s c => detachConv_fr s name c st.tag) _ _
 
 theorem markTail_fr (s : St) (name : String) (a d : List Nat) (st : Started) :
     Fr (· ≠ name) s (markTail (markUpdate s name a d) st).1 :=
@@ -351,11 +353,12 @@ theorem step_markDel_fr (s : St) (name : String) (ids : List Nat) (st : Started)
   all_goals first | exact Fr.refl _ _ | skip
   exact markTail_fr _ _ _ _ _
 
-theorem dtApply_fr (s : St) (name : String) (t : Tag) : Fr (· ≠ name) s (dtApply s name t) := by
+theorem dtApply_fr (s : St) (name : String) (t : Tag) (choice : Option String) :
+    Fr (· ≠ name) s (dtApply s name t choice) := by
   unfold dtApply
-  refine Fr.trans ((foldl_fr _ (fun s c => detachConv_fr s name c) t.convs s).mono fun _ _ => trivial) ?_
-  refine Fr.trans (b := { (t.convs.foldl (fun s c => detachConv s name c) s) with
-      tags := sdel (t.convs.foldl (fun s c => detachConv s name c) s).tags name }) ?_ ?_
+  refine Fr.trans ((foldl_fr _ (fun s c => detachConv_fr s name c choice) t.convs s).mono fun _ _ => trivial) ?_
+  refine Fr.trans (b := { (t.convs.foldl (fun s c => detachConv s name c choice) s) with
+      tags := sdel (t.convs.foldl (fun s c => detachConv s name c choice) s).tags name }) ?_ ?_
   · exact ⟨rfl, rfl, sorted_sdel _ _, fun n hn => keep_sdel_ne _ (Ne.symm hn)⟩
   · exact foldl_fr _ (fun s r => (delRefBy_fr s r name).mono fun _ _ => trivial) _ _
 
@@ -364,7 +367,7 @@ theorem step_delTag_fr (s : St) (name : String) (st : Started) :
   rw [step_delTag_eq]
   repeat' split
   all_goals first | exact Fr.refl _ _ | skip
-  exact dtApply_fr _ _ _
+  exact dtApply_fr _ _ _ _
 
 theorem step_nop_fr (s : St) (st : Started) : Fr NT s (step s .nop st).1 := Fr.refl _ _
 
